@@ -99,6 +99,9 @@ package auth
 //@   call credential requires [C16:credentials-read-for-request-host] args.reg == registry
 //@   call fetchDistributionToken requires [C16:secrets-go-to-the-challenge-realm] args.realm == realm && args.service == service && args.username == cred.Username && args.password == cred.Password
 //@   call fetchOAuth2Token requires [C16:secrets-go-to-the-challenge-realm] args.realm == realm && args.service == service && args.cred == cred
+//@   call fetchOAuth2Token requires [C16:oauth2-grant-only-with-a-credential] cred != EmptyCredential && (cred.RefreshToken != "" || c.ForceAttemptOAuth2)
+//@   call fetchDistributionToken requires [C16:distribution-flow-for-anonymous-and-password-credentials] cred == EmptyCredential || (cred.RefreshToken == "" && !c.ForceAttemptOAuth2)
+//@   ensures [C16:configured-access-token-used-as-is] result1 == nil && cred.AccessToken != "" ==> result0 == cred.AccessToken
 //@
 //@ func (*Client).fetchBasicAuth
 //@   call credential requires [C16:credentials-read-for-request-host] args.reg == registry
@@ -130,6 +133,7 @@ package auth
 //@   let cm = lockOf(cc, "cache")
 //@   let e1 = as(syncVal(lockOf(cc, "cache"), box(registry)), *cacheEntry)
 //@   call (*Once).Do set ccFirst = result0
+//@   call Delete requires [C16:in-flight-marker-removed-only-by-the-fetcher] ccFirst && args.key == box(statusKey)
 //@   ensures [C16:stored-under-same-triple] result1 == nil && ccFirst ==> syncHas(cm, box(registry)) && e1.scheme == scheme && syncHas(lockOf(e1, "tokens"), box(key)) && syncVal(lockOf(e1, "tokens"), box(key)) == box(result0)
 //@   ensures [C16:scheme-change-invalidates] result1 == nil && ccFirst && old(syncHas(lockOf(cc, "cache"), box(registry))) && old(as(syncVal(lockOf(cc, "cache"), box(registry)), *cacheEntry).scheme) != scheme ==> (forall k any :: k != box(key) ==> !syncHas(lockOf(e1, "tokens"), k))
 //@   ensures [C16:ri] ccRI(cc)
